@@ -215,7 +215,7 @@ def run(out):
         if mi[0] == 7 and mi[1] > 200:
             continue
         str_cases.append(mkcase(mi, TIMES[i % len(TIMES)]))
-    for _ in range(3000 if out.tier == 'quick' else 30000):
+    for _ in range(3000 if out.tier == 'quick' else 300000):
         tk = rng.choice(TIMES) if rng.random() < 0.5 else ((0, rng.randrange(-5, 10 ** 6)) if rng.random() < 0.5 else (1, repr(rng.random() * 10 ** rng.randrange(-5, 8))))
         str_cases.append(mkcase(canon.random_message(rng, sysex_max=30), tk))
     jobs = chunk_jobs(str_cases, 'str', COMP_STR)
@@ -233,7 +233,7 @@ def run(out):
     parse_cases = [[ord(c) for c in l] for l in lines]
     jobs += chunk_jobs(parse_cases, 'parse', COMP_PARSE)
     streams = []
-    for _ in range(200 if out.tier == 'quick' else 2000):
+    for _ in range(200 if out.tier == 'quick' else 20000):
         ls = []
         for _ in range(rng.randrange(0, 8)):
             r = rng.random()
